@@ -34,6 +34,7 @@ Pop == SubSeq(stack, 1, Len(stack) - 1)
 Push(op) == stack' = Append(stack, [op |-> op, led |-> E.led, lo |-> E.lo, hi |-> E.hi])
 Keep == UNCHANGED <<rlo>>
 
+Tokens == Is("tokens") /\ UNCHANGED <<led, lo, hi, stack, rlo>>          \* tokeniser event, judged by LexTrace
 Construct == Is("construct") /\ RemOK /\ ScopeOK /\ Adopt /\ stack' = <<>> /\ rlo' = 0
 Remove == /\ Is("remove") /\ RemOK /\ ScopeOK
           /\ LET ix == E.ix + 1  b == E.before IN
@@ -85,7 +86,7 @@ Verdict == /\ Is("verdict") /\ (E.v = "ok" => PresentIn(E.led, E.lo, E.hi) = {})
            /\ Adopt /\ UNCHANGED stack /\ Keep
 End == /\ Is("end") /\ (E.class = "ok" => \A i \in 1..Len(led) : led[i] = "P")     \* a value only on a fully used line (C05)
        /\ UNCHANGED <<led, lo, hi>> /\ stack' = <<>> /\ Keep
-Step == Construct \/ Remove \/ SetScope \/ Fork \/ Commit \/ Rollback \/ Fail \/ OrFork \/ OrPick
+Step == Tokens \/ Construct \/ Remove \/ SetScope \/ Fork \/ Commit \/ Rollback \/ Fail \/ OrFork \/ OrPick
         \/ AdjEnter \/ AdjTry \/ AdjAccept \/ AdjFail \/ CmdEnter \/ Verdict \/ End
 Init == l = 1 /\ led = <<>> /\ lo = 0 /\ hi = 0 /\ stack = <<>> /\ rlo = 0 /\ skipping = FALSE /\ bad = 0
 Next == /\ l <= Len(Rec) /\ l' = l + 1
